@@ -426,7 +426,8 @@ PROPS['C10'] = {
 }
 
 PROPS['C14'] = {
-    'modules': ['contracts.fs_format', 'contracts.serialize_refs', 'contracts.conflict', 'contracts.connection'],
+    'modules': ['contracts.fs_format', 'contracts.serialize_refs', 'contracts.conflict', 'contracts.connection',
+                'contracts.writer'],
     'lemmas': [],
     'level': 'other',
     'explanation': 'proved: the classification loops of referencesf/get_refs over every reference spelling of '
@@ -452,11 +453,17 @@ PROPS['C14'] = {
             'ObjectReader to it (CACHE-SHARED: one object per id whether reached by get() or by reference), which '
             'Connection.__init__ establishes; Connection.get gives the cached / added object for a known oid and otherwise '
             'loads, makes a ghost and FILES it in the cache under the oid before returning it (one object per id). '
-            'BOUNDED only - the first '
+            'ObjectWriter.persistent_id proved for persistent objects: the reference is spelled (oid, class) / oid / '
+            '[m, (database, oid, class)] / [n, (database, oid)] EXACTLY for same-or-other database x class without-or-with '
+            '__getnewargs__, names the object\'s oid, class and database; a new object gets an oid of this connection, '
+            'becomes its object and is queued for storing; an object of another connection is accepted only through the '
+            'multi-database (cross references allowed, database registered under its name, the connection this one hands '
+            'out for it, not being created there). BOUNDED only - the first '
             'sentence of the property (graph round trip through zodbpickle, ObjectWriter.persistent_id, ObjectReader '
             'loaders, broken classes): random graphs through the real code.',
-    'note': 'Everything inside zodbpickle and persistent (C code) is outside; A-NOLOAD assumed. persistent_id and the '
-            'loaders are NOT under contract (reflection over arbitrary objects) - bounded stand-in only.',
+    'note': 'Everything inside zodbpickle and persistent (C code) is outside; A-NOLOAD, A-CLASS assumed. The weak-reference '
+            'branch of persistent_id, non-persistent values, serialize() and the loaders other than the weak-reference one '
+            'are NOT under contract (reflection over arbitrary objects) - bounded stand-in only.',
     'design_ref': 'DESIGN.md section 5 C14',
 }
 
